@@ -80,6 +80,7 @@ def plan(tier, seed, kf_ids):
                             "for all x,y of %s: Ord::cmp/max and ==..>= are the value order; Hash feeds exactly "
                             "the bytes of the bits" % c.alias(s, w, f),
                             timeout=600, inst=c.alias(s, w, f), bounds="all operand pairs; hasher loop unwound 18"))
+    c.interleave(jobs)
     return {
         "engine_m": ["tofixed"],
         "feature": "c03",
